@@ -21,11 +21,11 @@ type run struct {
 
 func plan(tier string, seed uint64) []run {
 	// Measured (idle 16 cores): persisted flavour ≈ 1 ms wall per transition, in-memory ≈ 0.2 ms;
-	// quick = about 25 000 + 44 000 transitions, thorough about 16 times as many.
+	// quick = about 25 000 + 41 000 transitions; thorough about 150 000 + 300 000.
 	if tier == "thorough" {
 		return []run{
-			{"persisted clocks (GoGitRepo), one replica with a pre-fetched remote", Params{Seed: seed, Edit2: true, DelSingle: true, MaxIdent: 2, MaxNew: 3}, 8, 9 * time.Minute},
-			{"in-memory clocks (mockRepo)", Params{Mem: true, Seed: seed, Edit2: true, MaxIdent: 2, MaxNew: 3}, 9, 4 * time.Minute},
+			{"persisted clocks (GoGitRepo), one replica with a pre-fetched remote", Params{Seed: seed, Edit2: true, DelSingle: true, MaxIdent: 2, MaxNew: 3}, 7, 9 * time.Minute},
+			{"in-memory clocks (mockRepo)", Params{Mem: true, Seed: seed, Edit2: true, MaxIdent: 2, MaxNew: 3}, 8, 4 * time.Minute},
 		}
 	}
 	return []run{
